@@ -8,5 +8,6 @@ INVARIANTS
   SubjectNames
   NegReport
   PosReport
+  HonestReport
 POSTCONDITION Done
 CHECK_DEADLOCK FALSE
